@@ -5,11 +5,13 @@ package emulator
 // Contracts for the snesvc verifier (/verif). Comment-only; compiled only with -tags verif.
 
 //@ func (*System).GetPC
+//@   params s
 //@   property C12
 //@   ensures ret1 == uint32(s.CPU.RK)<<16|uint32(s.CPU.PC)
 //@   assigns nothing
 
 //@ func (*System).SetPC
+//@   params s pc
 //@   property C12
 //@   ensures uint32(s.CPU.RK)<<16|uint32(s.CPU.PC) == pc&0xFFFFFF
 //@   assigns s.CPU.RK, s.CPU.PC
@@ -17,6 +19,7 @@ package emulator
 // RunUntil: terminates (decreases), steps only while cycles remain and the target has not been reached,
 // and reports whether the program counter equals the target on exit.
 //@ func (*System).RunUntil
+//@   params s targetPC maxCycles
 //@   property C12
 //@   requires maxCycles <= 0xFFFFFFFFFFFFFF00
 //@   ensures ret1 == (uint32(s.CPU.RK)<<16|uint32(s.CPU.PC) == targetPC)
